@@ -1,5 +1,6 @@
 SPECIFICATION Spec
-CONSTANTS MaxN = 2 MaxVer = 2
+CONSTANTS MaxN = 2
+  LenProfiles <- LensQuick
   Forms = {"seq", "source", "seq_calter", "source_calter", "seq_malter", "source_malter"}
   StopKinds = {"close", "abandon"}
   Scenarios <- ScenQuick
